@@ -919,12 +919,7 @@ def _mask(sig, num_args, hide_args, hide_kwargs,
     pokargs_by_name = dict((p.name, p) for p in pokargs)
     consumed_names = set()
 
-    if hide_args:
-        consumed_names.update(p.name for p in posargs)
-        consumed_names.update(p.name for p in pokargs)
-        posargs = []
-        pokargs = []
-    elif num_args:
+    if num_args:
         consume = num_args
         for param in _pop_chain(posargs, pokargs):
             consume -= 1
@@ -939,19 +934,7 @@ def _mask(sig, num_args, hide_args, hide_kwargs,
 
     _remove_from_src(src, consumed_names)
 
-    if hide_args or hide_varargs:
-        if varargs:
-            src.pop(varargs.name, None)
-        varargs = None
-
     partial_mode = partial_obj is not None
-
-    if hide_kwargs:
-        _remove_from_src(src, _pnames(pokargs))
-        _remove_from_src(src, kwoargs)
-        pokargs = []
-        kwoargs = {}
-        named_args = []
 
     for kwarg_name in named_args:
         if kwarg_name in consumed_names:
@@ -990,6 +973,24 @@ def _mask(sig, num_args, hide_args, hide_kwargs,
                 default=named_args[kwarg_name])
             src[kwarg_name] = [partial_obj]
         consumed_names.add(kwarg_name)
+
+    # the hide_* flags only remove parameters from what the arguments left
+    if hide_args:
+        _remove_from_src(src, _pnames(posargs))
+        _remove_from_src(src, _pnames(pokargs))
+        posargs = []
+        pokargs = []
+
+    if hide_args or hide_varargs:
+        if varargs:
+            src.pop(varargs.name, None)
+        varargs = None
+
+    if hide_kwargs:
+        _remove_from_src(src, _pnames(pokargs))
+        _remove_from_src(src, kwoargs)
+        pokargs = []
+        kwoargs = {}
 
     if hide_kwargs or hide_varkwargs:
         if varkwargs:
